@@ -212,7 +212,7 @@ def run(ctx):
                     r.fail(
                         "C15.shared",
                         kk,
-                        "mutates an object reachable from the shared arguments of apply_rules (commandLineArguments / oConfig are bound once and reused for every file): `%s` %s" % (root, why),
+                        "mutates a process-wide shared object (reached from apply_rules' shared arguments, a class-level mutable or a module-level object; none is re-created per file): `%s` %s" % (root, why),
                         fi.loc(m.node),
                         path=_path(cg, reach, fi),
                     )
@@ -321,7 +321,18 @@ def _taint(p, cg, entry, reach):
                 for c in fi.cls.mro:
                     if (c.key, cur.attr) in fields:
                         return True
+                    # class-level mutable object never rebound on the instance: one object for the whole process
+                    if cur.attr in c.class_attrs and isinstance(c.class_attrs[cur.attr], (ast.List, ast.Dict, ast.Set)) and not _instance_assigned(fi.cls, cur.attr):
+                        return True
             cur = cur.value
+        if isinstance(cur, ast.Name) and (fi.key, cur.id) not in params and (fi.key, cur.id) not in locals_:
+            # module-level mutable object referenced by name
+            if cur.id not in loc_cache.setdefault(fi.key, local_names(fi.node)):
+                ent = p.resolve_name(fi.module, cur.id)
+                if ent and ent[0] == "var":
+                    vals = p.modules[ent[1]].globals_assigned.get(ent[2], [])
+                    if any(isinstance(v, (ast.List, ast.Dict, ast.Set, ast.Call)) for v in vals if v is not None):
+                        return True
         if isinstance(cur, ast.Call) and isinstance(cur.func, ast.Attribute) and cur.func.attr in ("get",):
             return tainted_expr(fi, cur.func.value, fresh)
         if isinstance(cur, ast.Name):
@@ -330,6 +341,7 @@ def _taint(p, cg, entry, reach):
 
     funcs = [p.functions[k] for k in reach]
     fresh_cache = {}
+    loc_cache = {}
     changed = True
     rounds = 0
     while changed and rounds < 12:
@@ -340,8 +352,6 @@ def _taint(p, cg, entry, reach):
                 fresh_cache[fi.key] = fresh_locals(fi, p)[0]
             fresh = fresh_cache[fi.key]
             has_taint = any(k[0] == fi.key for k in params) or any(k[0] == fi.key for k in locals_) or (fi.cls is not None and any((c.key, a) in fields for c in fi.cls.mro for (ck, a) in fields if ck == c.key))
-            if not has_taint:
-                continue
             for n in walk_function(fi.node):
                 if isinstance(n, ast.Assign):
                     if tainted_expr(fi, n.value, fresh):
